@@ -12,7 +12,11 @@
    * Statistics whose last step is a square root (stdev, bivar, sem) are modelled SQUARED
      (the harness compares squares).  Transcendental / external / random parts are
      oracles (record [oracles], one bundle per segment = what the library returned in
-     that call); every theorem quantifies over them. *)
+     that call); every theorem quantifies over them.
+   * numpy's random draws enter twice: as seed-indexed oracles (record [oracles], used by
+     do_segmetrics) and with the hidden global state made explicit ([rng], [ci_run],
+     [calc_intervals_run]); Proofs/SegmetricsLib2.v shows the two agree, whatever state the
+     process is in -- which is the reproducibility clause. *)
 From CNV Require Import Base.Prelude Base.QNum Gen.Params Gen.SegmetricsDefaults Gen.DescDefaults
   Model.Ranges Model.Descriptives.
 From Coq Require Import Qround Qabs.
@@ -154,13 +158,21 @@ Fixpoint map2 {A B C} (f : A -> B -> C) (l1 : list A) (l2 : list B) : list C :=
   | _, _ => []
   end.
 
-(* un-smoothed: weighted mean of every resample *)
+(* un-smoothed: weighted mean of every resample (np.take(values, idx), np.take(weights, idx)) *)
 Definition boot_means (vals wts : list Q) (idxm : list (list nat)) : list Q :=
   map (fun idx => wmean (take vals idx) (take wts idx)) idxm.
-(* smoothed: the resampled values plus the noise rows bw*sqrt(1-w)*randn(k) (oracle) *)
-Definition boot_means_smoothed (vals wts : list Q) (idxm : list (list nat)) (noise : list (list Q))
-  : list Q :=
-  map2 (fun idx nz => wmean (map2 qadd (take vals idx) nz) (take wts idx)) idxm noise.
+
+(* _smooth_samples_by_weight, one element: v + bw * np.sqrt(1 - w) * z, with bw = k ** (-1/4) and
+   z one standard-normal draw; sqrt and bw are oracles *)
+Definition smooth_elem (sqrtf : Q -> Q) (bw v w z : Q) : Q :=
+  qadd v (qmul (qmul bw (sqrtf (qsub sm_one w))) z).
+(* one resample (v, w) and the vector randn(k) drawn for it *)
+Definition smooth_row (sqrtf : Q -> Q) (bw : Q) (v w z : list Q) : list Q :=
+  map2 (fun vw zz => smooth_elem sqrtf bw (fst vw) (snd vw) zz) (combine v w) z.
+(* smoothed: the weighted mean of every smoothed resample, weights unchanged *)
+Definition boot_means_smoothed (sqrtf : Q -> Q) (bw : Q) (vals wts : list Q)
+  (idxm : list (list nat)) (zs : list (list Q)) : list Q :=
+  map2 (fun idx z => wmean (smooth_row sqrtf bw (take vals idx) (take wts idx) z) (take wts idx)) idxm zs.
 
 (* "if bootstraps <= 2/alpha: bootstraps = int(ceil(2/alpha))"; q2a is the float 2/alpha *)
 Definition n_boot (bootstraps : Z) (q2a : Q) : Z :=
@@ -169,15 +181,32 @@ Definition n_boot (bootstraps : Z) (q2a : Q) : Z :=
 Definition ci_pct_lo (alpha : Q) : Q := Qred (ci_hundred * (alpha / ci_two_lo)).
 Definition ci_pct_hi (alpha : Q) : Q := Qred (ci_hundred * (ci_one_hi - alpha / ci_two_hi)).
 
-(* what the libraries returned while one segment was processed *)
+(* what the libraries return while one segment is processed.  The random draws are functions
+   of the SEED: [o_randint s k rows cols] is the matrix np.random.randint(0, k, size=(rows, cols))
+   returns right after np.random.seed(s); [o_randn s k rows cols] the vectors randn(cols) drawn
+   after that, one per row of the matrix. *)
 Record oracles := mkOracles {
   o_kde : nat;                           (* argmax of the Gaussian KDE over the sorted values *)
   o_biloc : Q;                           (* descriptives.biweight_location of the deviations *)
   o_tt : Q -> nat -> Q;                  (* two-sided Student-t tail of (t^2, df) *)
   o_q2a : Q;                             (* the float 2/alpha *)
-  o_idx : list (list nat);               (* seed(0xA5EED); randint(0, k, size=(bootstraps, k)) *)
-  o_noise : list (list Q)                (* smoothing noise rows drawn after the indices *)
+  o_randint : Z -> nat -> nat -> nat -> list (list nat);
+  o_randn : Z -> nat -> nat -> nat -> list (list Q);
+  o_bw : nat -> Q;                       (* k ** (-1/4) *)
+  o_sqrt : Q -> Q                        (* np.sqrt *)
 }.
+
+(* the bootstrap distribution of the segment mean: [bootstraps] raised if too few, the index
+   matrix of shape (bootstraps, k) drawn after seed(0xA5EED), one weighted mean per row *)
+Definition ci_resamples (O : oracles) (boots : Z) (k : nat) : list (list nat) :=
+  o_randint O ci_seed k (Z.to_nat (n_boot boots (o_q2a O))) k.
+Definition ci_normals (O : oracles) (boots : Z) (k : nat) : list (list Q) :=
+  o_randn O ci_seed k (Z.to_nat (n_boot boots (o_q2a O))) k.
+Definition ci_dist (O : oracles) (boots : Z) (smoothed : bool) (vals wts : list Q) : list Q :=
+  let k := length vals in
+  if smoothed
+  then boot_means_smoothed (o_sqrt O) (o_bw O k) vals wts (ci_resamples O boots k) (ci_normals O boots k)
+  else boot_means vals wts (ci_resamples O boots k).
 
 Definition ci_func (O : oracles) (alpha : Q) (bootstraps : Z) (smoothed : bool)
   (vals wts : list Q) : option (Q * Q) :=
@@ -186,11 +215,65 @@ Definition ci_func (O : oracles) (alpha : Q) (bootstraps : Z) (smoothed : bool)
   | x :: _ =>
       if (Z.of_nat (length vals) <? ci_min_k)%Z then Some (x, x)
       else
-        let idxm := o_idx O in
-        let dist := if smoothed
-                    then boot_means_smoothed vals wts idxm (o_noise O)
-                    else boot_means vals wts idxm in
+        let dist := ci_dist O bootstraps smoothed vals wts in
         Some (percentile (ci_pct_lo alpha) dist, percentile (ci_pct_hi alpha) dist)
+  end.
+
+(* ---- the same with numpy's GLOBAL random state made explicit ------------------------------
+   np.random.seed / randint / randn read and write one hidden state; [St] is that state, the
+   three functions are what numpy does to it.  confidence_interval_bootstrap receives whatever
+   state the process is in and returns the state it leaves behind. *)
+Record rng (St : Type) := mkRng {
+  g_seed : Z -> St;                                              (* np.random.seed(s) *)
+  g_randint : St -> nat -> nat -> nat -> list (list nat) * St;   (* randint(0, k, size=(rows, cols)) *)
+  g_randn : St -> nat -> list Q * St }.                          (* randn(n) *)
+Arguments g_seed {St}. Arguments g_randint {St}. Arguments g_randn {St}.
+
+(* one randn(n) per resample, in order *)
+Fixpoint draw_randn {St} (G : rng St) (st : St) (n rows : nat) : list (list Q) * St :=
+  match rows with
+  | O => ([], st)
+  | S r => let zs := g_randn G st n in
+           let rest := draw_randn G (snd zs) n r in
+           (fst zs :: fst rest, snd rest)
+  end.
+
+(* the seed-indexed oracles a generator [G] induces *)
+Definition rng_randint {St} (G : rng St) (s : Z) (k rows cols : nat) : list (list nat) :=
+  fst (g_randint G (g_seed G s) k rows cols).
+Definition rng_randn {St} (G : rng St) (s : Z) (k rows cols : nat) : list (list Q) :=
+  let m := g_randint G (g_seed G s) k rows cols in
+  fst (draw_randn G (snd m) cols (length (fst m))).
+Definition rng_oracles {St} (G : rng St) (O : oracles) : oracles :=
+  mkOracles (o_kde O) (o_biloc O) (o_tt O) (o_q2a O) (rng_randint G) (rng_randn G) (o_bw O) (o_sqrt O).
+
+Definition ci_run {St} (G : rng St) (O : oracles) (st : St) (alpha : Q) (bootstraps : Z)
+  (smoothed : bool) (vals wts : list Q) : option (Q * Q) * St :=
+  match vals with
+  | [] => (None, st)                                   (* calc_intervals: "if len(ser):" *)
+  | x :: _ =>
+      let k := length vals in
+      if (Z.of_nat k <? ci_min_k)%Z then (Some (x, x), st)
+      else
+        let st1 := g_seed G ci_seed in
+        let m := g_randint G st1 k (Z.to_nat (n_boot bootstraps (o_q2a O))) k in
+        if smoothed
+        then let zs := draw_randn G (snd m) k (length (fst m)) in
+             let dist := boot_means_smoothed (o_sqrt O) (o_bw O k) vals wts (fst m) (fst zs) in
+             (Some (percentile (ci_pct_lo alpha) dist, percentile (ci_pct_hi alpha) dist), snd zs)
+        else let dist := boot_means vals wts (fst m) in
+             (Some (percentile (ci_pct_lo alpha) dist, percentile (ci_pct_hi alpha) dist), snd m)
+  end.
+
+(* calc_intervals(bins_log2s, weights, ci_func): one call per segment, the state handed on;
+   a second do_segmetrics call in the same process simply continues the sequence *)
+Fixpoint calc_intervals_run {St} (G : rng St) (O : oracles) (st : St) (alpha : Q) (bootstraps : Z)
+  (smoothed : bool) (segs : list (list Q * list Q)) : list (option (Q * Q)) * St :=
+  match segs with
+  | [] => ([], st)
+  | vw :: t => let r := ci_run G O st alpha bootstraps smoothed (fst vw) (snd vw) in
+               let rest := calc_intervals_run G O (snd r) alpha bootstraps smoothed t in
+               (fst r :: fst rest, snd rest)
   end.
 
 (* ---- do_segmetrics ------------------------------------------------------- *)
@@ -226,8 +309,18 @@ Definition pair_cols (lo hi : string) (r : option (Q * Q)) : list (string * opti
 
 Definition has (name : string) (l : list string) : bool := existsb (String.eqb name) l.
 
-(* one output row from the values / weights of the segment's bins *)
-Definition row_of_values (O : oracles) (cfg : config) (seg_log2 : Q) (vals wts : list Q)
+(* segarr[name] = values: a new column is appended, an existing one is overwritten in place *)
+Fixpoint set_col (nm : string) (v : option Q) (cols : list (string * option Q))
+  : list (string * option Q) :=
+  match cols with
+  | [] => [(nm, v)]
+  | c :: t => if String.eqb (fst c) nm then (fst c, v) :: t else c :: set_col nm v t
+  end.
+Definition set_cols (new cols : list (string * option Q)) : list (string * option Q) :=
+  fold_left (fun acc p => set_col (fst p) (snd p) acc) new cols.
+
+(* the column assignments of one do_segmetrics call, in the order the code makes them *)
+Definition row_assignments (O : oracles) (cfg : config) (seg_log2 : Q) (vals wts : list Q)
   : list (string * option Q) :=
   let devs := map (fun x => qsub x seg_log2) vals in
   named_stats (loc_stat O) (c_loc cfg) vals ++
@@ -238,6 +331,11 @@ Definition row_of_values (O : oracles) (cfg : config) (seg_log2 : Q) (vals wts :
   (if has "pi" (c_ivl cfg)
    then pair_cols "pi_lo" "pi_hi" (pi_func (c_alpha cfg) vals)
    else []).
+
+(* one output row from the values / weights of the segment's bins *)
+Definition row_of_values (O : oracles) (cfg : config) (seg_log2 : Q) (vals wts : list Q)
+  : list (string * option Q) :=
+  set_cols (row_assignments O cfg seg_log2 vals wts) [].
 
 Definition row_of_bins (O : oracles) (cfg : config) (s : seg) (sb : list tbin)
   : list (string * option Q) :=
